@@ -6,6 +6,8 @@
      quara/utils/matrix_util.py                                      : replace_prob_dist
      quara/loss_function/probability_based_loss_function.py          : set_from_standard_qtomography_option_data (call skeleton)
      quara/loss_function/standard_qtomography_based_weighted_*.py    : cache rebuild, overridden setters, set_func_* (call skeletons)
+     quara/loss_function/probability_based_loss_function.py          : set_func_{prob_dists,gradient_prob_dists,hessian_prob_dists}_from_standard_qt
+                                                                       and the three closure generators (index arithmetic of the slicing)
    The regenerated decision tables equal the hand-written ones (Model/C12_Dispatch.v, which Proofs/C12_Dispatch.v ties to the
    state-machine model of Model/C12_Loss.v), for ALL inputs, hence "every accepted mode installs weights" holds for the
    source as it is.  The proofs go by case analysis on the mode string, so re-ordering the branches / the accepted list or
@@ -13,8 +15,8 @@
    sample / unbiased, other slice bounds, another replacement formula breaks them. *)
 From Coq Require Import String List Bool ZArith Arith Lia.
 From QV.Core Require Import OF Sums Mat.
-From QV.Model Require Import C12_Loss C12_Dispatch C12_Skeleton.
-From QV.Proofs Require Import C12_Dispatch C12_Skeleton.
+From QV.Model Require Import C12_Loss C12_Dispatch C12_Skeleton C12_Slices.
+From QV.Proofs Require Import C12_Dispatch C12_Skeleton C12_Slices.
 From QVGen Require Import Gen_c12_dispatch.
 Import ListNotations.
 Open Scope string_scope.
@@ -136,3 +138,47 @@ Theorem gen_configuration_is_state_machine_re_fast : forall (R : CR) m gr he oid
 Proof. intros. subst a b. rewrite gen_re_dispatch_eq.
   destruct os as [[[w|] e] o], cm, c as [c|], gr, he; repeat split; reflexivity. Qed.
 Print Assumptions gen_configuration_is_state_machine_re_fast.
+
+(* ------------------------------------------------------------------ slicing of the stacked forward model *)
+(* rows of the ORIGINAL matA / vecB that the closure of one schedule reads: the closure is built for the slice [lo, hi) with
+   arguments (size, index) and reads rows [a, b) = gen_helper_rows size index of THAT slice (numpy truncates at its end) *)
+Definition rows_read (pc : nat * nat * nat * nat) : nat * nat :=
+  let '(lo, hi, sz, ix) := pc in (lo + fst (gen_helper_rows sz ix), lo + Nat.min (snd (gen_helper_rows sz ix)) (hi - lo)).
+
+Lemma gen_pd_rows_from : forall sizes start, map rows_read (gen_pd_pieces_from start sizes) = slices_from start sizes.
+Proof. induction sizes as [|n t IH]; intros start; [reflexivity|].
+  cbn [gen_pd_pieces_from slices_from map]. cbv zeta. f_equal.
+  - unfold rows_read, gen_helper_rows. cbn [fst snd]. f_equal; lia.
+  - first [apply IH | (rewrite <- IH; repeat f_equal; lia)]. Qed.
+
+(* every schedule's predicted distribution is computed from exactly ITS rows: the row ranges the regenerated code reads are
+   the model's slices, which partition the rows (schedule j: [offset j, offset j + outcomes j), any outcome counts) *)
+Theorem gen_prob_dist_rows_partition : forall sizes,
+  map rows_read (gen_pd_pieces sizes) = slices sizes /\
+  (forall j, (j < length sizes)%nat ->
+     nth j (map rows_read (gen_pd_pieces sizes)) (0, 0)%nat = (offset sizes j, offset sizes j + nth j sizes 0)%nat) /\
+  offset sizes (length sizes) = total sizes.
+Proof. intros sizes. assert (E : map rows_read (gen_pd_pieces sizes) = slices sizes) by apply gen_pd_rows_from.
+  split; [exact E|]. destruct (slices_partition sizes) as [_ [H [_ Ht]]]. split; [|exact Ht].
+  intros j Hj. rewrite E. exact (proj1 (H j Hj)). Qed.
+Print Assumptions gen_prob_dist_rows_partition.
+
+(* the gradient closures: schedule j's closure has as many entries as the schedule has outcomes and entry i reads row
+   offset j + i, inside its slice *)
+Definition grad_ok (pc : nat * nat * nat * nat) (sl : nat * nat) : Prop :=
+  let '(lo, hi, sz, ix) := pc in
+  sz = (snd sl - fst sl)%nat /\ forall i, (i < sz)%nat -> (lo + gen_helper_grad_row sz ix i = fst sl + i /\ lo + gen_helper_grad_row sz ix i < hi)%nat.
+Lemma gen_grad_rows_from : forall sizes start, Forall2 grad_ok (gen_grad_pieces_from start sizes) (slices_from start sizes).
+Proof. induction sizes as [|n t IH]; intros start; [constructor|].
+  cbn [gen_grad_pieces_from slices_from]. cbv zeta. constructor.
+  - unfold grad_ok, gen_helper_grad_row. cbn [fst snd]. split; [lia|]. intros i Hi. lia.
+  - first [apply IH | (match goal with |- Forall2 _ (_ ?a _) (_ ?b _) => replace a with b by lia end; apply IH)]. Qed.
+Theorem gen_gradient_rows_partition : forall sizes, Forall2 grad_ok (gen_grad_pieces sizes) (slices sizes).
+Proof. intros. apply gen_grad_rows_from. Qed.
+Print Assumptions gen_gradient_rows_partition.
+
+(* the Hessian closures return as many zeros as the schedule has outcomes *)
+Theorem gen_hessian_sizes_eq : forall sizes, gen_hess_sizes sizes = sizes /\ forall n ix, gen_hess_len n ix = n.
+Proof. intros sizes. split; [|intros; unfold gen_hess_len; lia].
+  unfold gen_hess_sizes. induction sizes as [|n t IH]; [reflexivity|]. cbn [map]. rewrite IH. cbv beta. f_equal; lia. Qed.
+Print Assumptions gen_hessian_sizes_eq.
